@@ -39,10 +39,11 @@ import (
 // Source is something to compile: a corpus file on the real disk or a generated
 // multi-file model on a simulated disk.
 type Source struct {
-	Name  string            `json:"name"`
-	Root  string            `json:"root,omitempty"`  // corpus: directory on the real disk
-	Files map[string]string `json:"files,omitempty"` // generated: path -> content
-	Depth int               `json:"max_depth,omitempty"`
+	Name       string            `json:"name"`
+	Root       string            `json:"root,omitempty"`  // corpus: directory on the real disk
+	Files      map[string]string `json:"files,omitempty"` // generated: path -> content
+	Depth      int               `json:"max_depth,omitempty"`
+	NoVerCheck bool              `json:"no_different_version_check,omitempty"`
 	// ExpectApps: for generated models, the application names the reference closure
 	// model predicts (independent of any earlier compilation in this process).
 	ExpectApps []string `json:"expect_apps,omitempty"`
@@ -84,7 +85,7 @@ func compile(s *Source) (out string) {
 		}
 	}()
 	p := parse.NewParser()
-	p.Set(parse.Settings{MaxImportDepth: s.Depth})
+	p.Set(parse.Settings{MaxImportDepth: s.Depth, NoDifferentVersionCheck: s.NoVerCheck})
 	m, err := p.Parse(s.Name, s.reader())
 	if err != nil {
 		return "ERROR " + err.Error()
@@ -266,7 +267,7 @@ func generated(seed uint64, broken bool) *Source {
 			f.Text += "Tail [~x, y=\"z\"\n"
 		}
 	}
-	src := &Source{Name: w.Files[0].Path, Files: map[string]string{}, Depth: w.MaxDepth}
+	src := &Source{Name: w.Files[0].Path, Files: map[string]string{}, Depth: w.MaxDepth, NoVerCheck: w.NoVerCheck}
 	for _, f := range w.Files {
 		if !f.Remote && (f.Kind == "sysl" || f.Kind == "pbjson" || f.Kind == "textpb") {
 			src.Files[f.Path] = f.Text
